@@ -19,7 +19,7 @@ Kinds == {"absent", "text", "empty", "textparent", "parent", "parent2", "parente
 \* "nest" (block b1 of a child only): the override contains a definition of b2, which also calls parent()
 BaseKinds == {"text", "empty"}
 ExtKinds == {"absent", "text", "textparent", "parent"}
-Layouts == {"apply", "spaceless", "top", "nested", "loop", "if", "iffalse", "incl"}
+Layouts == {"apply", "spaceless", "top", "nested", "loop", "loop2", "if", "iffalse", "incl"}
 
 \* marker of (level, block): a capital letter per level, digit per block
 Marker(lvl, b) == <<65 + lvl, IF b = "b1" THEN 49 ELSE 50>>
@@ -47,6 +47,9 @@ BaseBody(k, lay, k1, k2) ==
            <<Text(<<72>>), Block("b1", Body(k, "b1", k1) \o <<Text(<<60>>), BlockOf(k, "b2", k2), Text(<<62>>)>>), Text(<<70>>)>>
       [] lay = "loop" ->
            <<BlockOf(k, "b2", k2), For1("i", Lit(VL(<<VI(1), VI(2)>>)), <<BlockOf(k, "b1", k1), Text(<<59>>)>>), Text(<<70>>)>>
+      \* (a loop inside a loop: the block stands in the inner body)
+      [] lay = "loop2" ->
+           <<BlockOf(k, "b2", k2), For1("j", Lit(VL(<<VI(7), VI(8)>>)), <<For1("i", Lit(VL(<<VI(1), VI(2)>>)), <<BlockOf(k, "b1", k1), Text(<<59>>)>>), Text(<<47>>)>>), Text(<<70>>)>>
       [] lay = "if" ->
            <<If1(LB(TRUE), <<BlockOf(k, "b1", k1)>>), Text(<<77>>), BlockOf(k, "b2", k2)>>
       \* blocks inside an apply tag / a spaceless tag of the layout are blocks like any other
